@@ -40,6 +40,10 @@ T["C18"] = ("NaN-watch contracts on all bs_* price/delta functions + certain-pay
             "Every price/delta call (all aliases) is watched for NaN on finite non-negative inputs; a boundary grid (t, sigma in {0, tiny}, |s| from 0 to 50, running max on "
             "both sides, call/put, strikes) is judged against the payoff that is then certain and the limiting deltas; negative inputs must raise ValueError in every function; "
             "Black-Scholes / Whalley-Wilmott hedgers on simulated paths (incl. Heston paths reaching zero variance) must give finite hedge and P&L. Two known findings.", "4 C18")
+T["C08"] = ("finite-difference oracle monitor on every Greek of every BS module/function + autogreek on random user pricers",
+            "delta/gamma/vega/theta of the four pricing modules and of the functional forms are compared with 4th-order Richardson central differences of the same "
+            "object's float64 price over sweeps dominated by t != 1 and K != 1 (incl. barrier already reached with the spot back below); the automatic Greeks are run on "
+            "randomly parameterised smooth pricers under every accepted parameterisation. Points where two FD step sizes disagree are skipped and counted.", "4 C08")
 NA = {}
 
 def main():
